@@ -26,7 +26,50 @@ def import_eon():
     import EoN
     assert os.path.abspath(EoN.__file__).startswith(os.path.abspath(REPO) + os.sep), \
         'EoN imported from %s, not from %s' % (EoN.__file__, REPO)
+    if os.environ.get('EON_ARG_AUDIT') and not getattr(EoN, '_arg_audit_on', False):
+        _arg_audit(EoN)
     return EoN
+
+
+def _arg_audit(EoN):
+    """tools/argaudit.sh: record, for every public function of EoN, which parameters the CHECKS pass (by type and
+    truthiness); off unless EON_ARG_AUDIT=<file> is set.  Wraps module attributes only; calls made from inside the
+    library are not counted."""
+    import atexit, functools, inspect, importlib
+    EoN._arg_audit_on = True
+    rec = {}
+    libdir = os.path.dirname(os.path.abspath(EoN.__file__))
+    def wrap(mod, name, f):
+        try: sig = inspect.signature(f)
+        except Exception: return
+        @functools.wraps(f)
+        def g(*a, **k):
+            try:
+                if not os.path.abspath(sys._getframe(1).f_code.co_filename).startswith(libdir):
+                    d = rec.setdefault(name, {'__params__': list(sig.parameters)})
+                    for pn, v in sig.bind_partial(*a, **k).arguments.items():
+                        t = type(v).__name__
+                        try: falsy = (not callable(v)) and (not hasattr(v, 'shape')) and (not hasattr(v, 'nodes')) and (not v)
+                        except Exception: falsy = False
+                        tag = t + (':falsy' if falsy and v is not None else '')
+                        dd = d.setdefault(pn, {}); dd[tag] = dd.get(tag, 0) + 1
+            except Exception:
+                pass
+            return f(*a, **k)
+        setattr(mod, name, g)
+    mods = [EoN] + [importlib.import_module('EoN.' + m) for m in ('simulation', 'analytic', 'auxiliary')]
+    seen = {}
+    for mod in mods:
+        for name, f in list(vars(mod).items()):
+            if inspect.isfunction(f) and getattr(f, '__module__', '').startswith('EoN') and not name.startswith('__'):
+                if id(f) not in seen:
+                    wrap(mod, name, f); seen[id(f)] = getattr(mod, name)
+                else:
+                    setattr(mod, name, seen[id(f)])
+    def dump():
+        with open(os.environ['EON_ARG_AUDIT'], 'a') as fh:
+            fh.write(json.dumps(rec) + '\n')
+    atexit.register(dump)
 
 
 def sh(cmd, cwd=None, timeout=1800, env=None):
